@@ -19,6 +19,12 @@ using sim::Rng;
 using sim::strf;
 
 extern "C" void __sanitizer_cov_trace_pc_guard(uint32_t *guard) { sim::cov_hit(*guard); }
+extern "C" void __sanitizer_cov_trace_pc(void) {}  // basic-block callback of the gcc-built library (second build): unused here
+#ifdef REC_VARIANT_GCC
+#define REC_ENGINE_NAME "recg"
+#else
+#define REC_ENGINE_NAME "rec"
+#endif
 
 namespace rec {
 
@@ -63,7 +69,7 @@ static std::string gen(const std::string &prop, uint64_t base, uint64_t idx, boo
     std::string o;
     auto line = [&](const std::string &l) { o += l; o += '\n'; };
     int ntasks = (int)r.range(1, 4);
-    line(strf("plan v1 engine=rec prop=%s seed=0x%llx idx=%llu", prop.c_str(), (unsigned long long)seed, (unsigned long long)idx));
+    line(strf("plan v1 engine=" REC_ENGINE_NAME " prop=%s seed=0x%llx idx=%llu", prop.c_str(), (unsigned long long)seed, (unsigned long long)idx));
     line(strf("cfg tasks=%d gseed=0x%llx", ntasks, (unsigned long long)r.next()));
     struct B { int id, task; const BindFormat *f; };
     std::vector<B> bufs;
@@ -123,7 +129,7 @@ static std::string gen(const std::string &prop, uint64_t base, uint64_t idx, boo
             if (!f->init && !f->legacy_init && !f->legacy_init2) continue;
             if (!f->init) via = "legacy";
             if (f->legacy_init2 && r.coin()) via = "legacy2";
-            line(strf("op b=%d init via=%s v=0x%llx", b.id, via, (unsigned long long)r.below(256)));
+            line(strf("op b=%d init via=%s v=0x%llx", b.id, via, (unsigned long long)(r.coin() ? r.below(4) : r.below(256))));  // format subtypes in use are 0..2
             written[b.id].clear();
         } else if (k < 50) {
             const BindField *fl = pick_field(false);
@@ -520,7 +526,7 @@ static sim::RunResult on_crash(const sim::CrashInfo &ci) {
 
 int main(int argc, char **argv) {
     sim::Engine e;
-    e.name = "rec";
+    e.name = REC_ENGINE_NAME;
     e.property = "C05";
     e.gen = rec::gen;
     e.exec = rec::exec;
@@ -542,5 +548,13 @@ int main(int argc, char **argv) {
     e.thorough_runs = 1150000;
     e.quick_wall_cap = 150;
     e.thorough_wall_cap = 1500;
+#ifdef REC_VARIANT_GCC
+    // second build: library and bindings compiled by gcc -O2 (the repository's default toolchain), no sanitizer in the library code
+    e.real_components = {"libopen1722 + libopen1722custom objects built from /repo/src by gcc -O2", "call bindings generated from /repo/include at build time, compiled by gcc -O2"};
+    e.quick_runs = 7600;
+    e.thorough_runs = 380000;
+    e.quick_wall_cap = 60;
+    e.thorough_wall_cap = 500;
+#endif
     return sim::driver_main(argc, argv, e);
 }
